@@ -189,6 +189,8 @@ def main(argv=None):
         for c in reg.verify:
             if getattr(c, 'crosscheck', True) is False:
                 continue
+            if (c.ghost or c.ghost_init) and not c.native_gen:
+                continue     # ghost state cannot be guessed natively without a generator
             try:
                 j = replay_mod.job_of(c, reg, mod, pid, '<cross-check>')
                 j['name'] = c.name
